@@ -1012,6 +1012,14 @@ impl IoUring {
     }
 
     pub fn get_next_cqe(&mut self) -> Option<&IoUringCompletionQueueEntry> {
+        // The slot of the entry handed out by the previous call is given back to the kernel
+        // only now: the reference we returned points into it and the kernel may overwrite
+        // a slot as soon as the head has passed it.
+        if self.completion_queue.unreleased != 0 {
+            let num = self.completion_queue.unreleased;
+            self.completion_queue.unreleased = 0;
+            self.completion_queue.advance(num);
+        }
         let shift = u32::from(self.flags.contains(IoUringParamFlags::IORING_SETUP_CQE32));
         let tail = self.completion_queue.acquire_ktail();
         let head = self.completion_queue.acquire_khead();
@@ -1021,7 +1029,7 @@ impl IoUring {
         }
         let ind = ((head & self.completion_queue.ring_mask) << shift) as usize;
         let cqe = unsafe { self.completion_queue.entries.as_ptr().add(ind) };
-        self.completion_queue.advance(1);
+        self.completion_queue.unreleased = 1;
         unsafe { cqe.as_ref() }
     }
 }
@@ -1121,6 +1129,8 @@ pub(crate) struct UringCompletionQueue {
     pub(crate) ring_mask: u32,
     pub(crate) ring_entries: u32,
     pub(crate) entries: NonNull<IoUringCompletionQueueEntry>,
+    /// Entries handed out by `get_next_cqe` whose slots haven't been released yet
+    pub(crate) unreleased: u32,
 }
 
 #[expect(dead_code)]
